@@ -80,6 +80,25 @@ func VX_C14_Races(args []int) {
 		})
 		run(func() { p.CountSession(); p.GetSession("cli:3") })
 		n = 3
+	case 10: // pushes from two goroutines while an incoming PUSH and a CALL are handled
+		conn.feed(vxFrame(TypePush, 11, "/h", []byte("p")))
+		conn.feed(vxFrame(TypeCall, 12, "/h", []byte("c")))
+		run(func() { s.Push("/p1", []byte("1")) })
+		run(func() { s.Push("/p2", []byte("2")) })
+		run(func() { p.CountSession(); _ = s.Health(); _ = s.ID() })
+		n = 3
+	case 11: // application data stored on the session while incoming messages take their contexts
+		conn.feed(vxFrame(TypeCall, 21, "/h", []byte("a")))
+		conn.feed(vxFrame(TypeCall, 22, "/h", []byte("b")))
+		run(func() { s.Swap().Store("k1", 1); s.Swap().Delete("k1") })
+		run(func() { s.Swap().Store("k2", 2); _ = s.Swap().Len() })
+		n = 2
+	case 12: // lookups and enumeration while a session closes and another is accepted
+		c2 := newVxConn("srv:1", "cli:9")
+		run(func() { s.Close() })
+		run(func() { p.ServeConn(c2) })
+		run(func() { p.GetSession("cli:2"); p.GetSession("cli:9"); p.CountSession(); p.RangeSession(func(Session) bool { return true }) })
+		n = 3
 	case 6: // call vs remote close
 		run(func() { s.AsyncCall("/a", []byte("1"), new([]byte), make(chan CallCmd, 1)) })
 		conn.end()
